@@ -167,19 +167,28 @@ def per_channel(rng, f, variants):
     return vals
 
 
-def layout(rng, vals, inB, mode):
-    """arrange pixel values as a w x h area with a stride; returns (bytes, w, h, stride)"""
+def layout(rng, vals, inB, mode, pad_bytes=None):
+    """arrange pixel values as a w x h area with a stride; returns (bytes, w, h, stride).
+    The stride is a multiple of the pixel size except for 3-byte pixels (and forced pad_bytes),
+    where the code takes the stride in bytes."""
     n = len(vals)
     if mode == "row":
         w, h = n, 1
     elif mode == "col":
         w, h = 1, n
+    elif mode == "rect5":
+        w = 5
+        h = (n + w - 1) // w
     else:
         w = rng.choice([2, 3, 5, 7, 16, 31, 64, 100, 255, 256])
         w = max(1, min(w, n))
         h = (n + w - 1) // w
     pad_px = rng.choice([0, 0, 1, 3, 17]) if mode != "tight" else 0
     stride = (w + pad_px) * inB
+    if pad_bytes is not None:
+        stride = w * inB + pad_bytes
+    elif inB == 3 and mode != "tight":
+        stride = w * 3 + rng.choice([0, 1, 2, 3, 4, 5, 7, 13, 64 - (w * 3) % 64])
     vals = list(vals) + [rng.getrandbits(8 * inB) for _ in range(w * h - n)]
     buf = bytearray(rng.randbytes(((h - 1) * stride + w * inB) if h and w else 0))
     order = "big" if HOST_BE else "little"
@@ -356,6 +365,16 @@ def script_for(rng, srv, cli, econ, tier, full16=True, cmap=None, via_msg=None, 
     buf, w, h, stride = layout(rng, vals, inB, rng.choice(["rect", "rect", "row", "tight"]))
     lines.append("px %s %d %d %d" % (buf.hex() or "-", w, h, stride))
     npx += w * h
+    if extra_px and inB:
+        # deterministic stride classes, every script: tight, padded (multiple of the pixel size),
+        # padded by 1 and 2 bytes where the code takes the stride in bytes (3-byte pixels, and
+        # rfbTranslateNone for identical formats); always >= 3 rows, pixels from the value set
+        byte_strides = inB == 3 or identical(srv, cli if cli.tc else BGR233) or stride_mode == "any"
+        for pad in [0, 2 * inB] + ([1, 2, inB + 1] if byte_strides else []):
+            sub = [vals[rng.randrange(len(vals))] for _ in range(15)]
+            buf, w, h, stride = layout(rng, sub, inB, "rect5", pad_bytes=pad)
+            lines.append("px %s %d %d %d" % (buf.hex() or "-", w, h, stride))
+            npx += w * h
     if extra_px:
         # small areas with awkward shapes: 0/1 wide or high, stride 0 / smaller than a row / huge
         for _ in range(4):
@@ -394,6 +413,42 @@ def build_cases(ctx):
         cases.append({"script": script, "npx": npx, "checked": checked, "tag": tag, "key": key,
                       "finding": finding})
 
+    # 0. deterministic core (same format pairs at every seed; only pixel contents are random):
+    #    every (strategy x server bpp x client bpp x client byte order) cell, colour-mapped servers
+    #    with 8- and 16-bit maps, colour-map clients, identical formats of every size.  Every script
+    #    carries all stride classes (script_for).
+    core_srv = [(mk(8, host, (3, 3, 2), (0, 3, 6)), 0), (mk(16, host, (5, 6, 5), (11, 5, 0)), 0),
+                (mk(16, host, (5, 6, 5), (11, 5, 0)), 1), (mk(24, host, (8, 8, 8), (16, 8, 0)), 0),
+                (mk(32, host, (8, 8, 8), (16, 8, 0), depth=24), 0),
+                (mk(32, host, (10, 11, 11), (22, 11, 0), depth=32), 1)]
+    core_cli = [mk(8, 0, (3, 3, 2), (5, 2, 0)), mk(16, 0, (5, 5, 5), (0, 5, 10), depth=15),
+                mk(32, 0, (8, 8, 8), (24, 16, 8), depth=24)]
+    for s, econ in core_srv:
+        for c0 in core_cli:
+            for cbe in (0, 1):
+                c = c0.replace(be=cbe)
+                sc, n = script_for(rng, s, c, econ, tier, full16=False, via_msg=(cbe == 1))
+                add(sc, n, True, "core:tc", (s, c, econ), finding=FINDING_24 if s.bpp == 24 else None)
+    for sb in (8, 16):
+        for is16 in (0, 1):
+            top = 65535 if is16 else 255
+            cnt = 256 if sb == 8 else 4096
+            cmv = [rng.choice([0, top, rng.randint(0, top)]) for _ in range(cnt * 3)]
+            s = Fmt((sb, sb, host, 0, 0, 0, 0, 0, 0, 0))
+            for c0 in core_cli + [Fmt((8, 8, 0, 0, 0, 0, 0, 0, 0, 0))]:
+                for cbe in (0, 1):
+                    if not c0.tc and cbe:
+                        continue
+                    c = c0.replace(be=cbe)
+                    sc, n = script_for(rng, s, c, is16, tier, full16=False, cmap=(is16, cnt, cmv),
+                                       via_msg=(cbe == 1))
+                    add(sc, n, True, "core:cmap-server", (s, c, is16))
+    for s, econ in core_srv[:5]:
+        sc, n = script_for(rng, s, Fmt((8, 8, 0, 0, 0, 0, 0, 0, 0, 0)), econ, tier, full16=False)
+        add(sc, n, True, "core:bgr233-client", (s, "cm", econ),
+            finding=FINDING_24 if s.bpp == 24 else None)
+        sc, n = script_for(rng, s, s, econ, tier, full16=False, via_msg=False)
+        add(sc, n, True, "core:identical", (s, s, econ))
     # 1. catalogue (both economic settings for 16 bpp servers)
     cat = catalogue()
     full16_budget = 14 if tier == "quick" else 10 ** 9
@@ -405,7 +460,7 @@ def build_cases(ctx):
             sc, n = script_for(rng, s, c, econ, tier, full16=full)
             add(sc, n, True, "catalogue", (s, c, econ))
     # 2. random well-formed pairs
-    nrand = 70 if tier == "quick" else 700
+    nrand = 50 if tier == "quick" else 700
     for k in range(nrand):
         sb = rng.choice([8, 16, 16, 32, 32])
         cb = rng.choice([8, 16, 32])
@@ -418,10 +473,10 @@ def build_cases(ctx):
     # 3. near-identical pairs: exactly one field differs (PF_EQ boundary), and fully identical ones
     nnear = 24 if tier == "quick" else 150
     for k in range(nnear):
-        sb = rng.choice([8, 16, 32])
+        sb = [8, 16, 32][(k // 6) % 3]
         s = rand_wf(rng, sb, host)
         c = s
-        which = rng.choice(["same", "depth", "be", "shiftswap", "max", "shift"])
+        which = ["same", "depth", "be", "shiftswap", "max", "shift"][k % 6]
         if which == "depth":
             c = s.replace(depth=s.depth - 1 if s.depth > 1 else s.depth + 1)
         elif which == "be":
@@ -464,7 +519,7 @@ def build_cases(ctx):
     #    servers that declare the other byte order, invalid bpp values (reject)
     nex = 40 if tier == "quick" else 300
     for k in range(nex):
-        kind = rng.choice(["illformed", "stride", "foreign", "reject", "illformed"])
+        kind = ["illformed", "stride", "foreign", "reject", "illformed"][k % 5]
         sb = rng.choice([8, 16, 32]); cb = rng.choice([8, 16, 32])
         s = rand_wf(rng, sb, host); c = rand_wf(rng, cb, rng.randint(0, 1))
         mode = "multiple"
